@@ -89,6 +89,19 @@ def run_reader(ctx, b, fmt, offsets=None, capture=None, fake_missing=None, sanit
     r = cls(**k)
     data = b.tobytes()
     r.read(b.dsname, fileobj=io.BytesIO(data))
+    if ctx.rng.random() < 0.4:
+        # another spacecraft's reader, configured with the SAME element-set directory and file-name pattern, looks up its
+        # own element set just before (an archive job working through files of several spacecraft): the correction of
+        # this pass must still use this spacecraft's orbit
+        from pygac.gac_klm import GACKLMReader
+        other = GACKLMReader(tle_dir=k["tle_dir"], tle_name=k["tle_name"])
+        other.spacecraft_name = "noaa16"
+        other._times_as_np_datetime64 = np.array([filegen.ydm_to_ms(2002, 187, 68700000)], dtype="datetime64[ms]")
+        try:
+            other.get_tle_lines()
+        except Exception:      # noqa - whatever the other reader finds is not this check's subject
+            pass
+        ctx.branches["other-spacecraft-lookup-before"] += 1
     orig = pr.get_offsets
     if offsets is not None:
         pr.get_offsets = offsets
